@@ -80,6 +80,20 @@ def _check_one(Genotype, alleles, rng, counters):
         raise Viol("deepcopy of %r gives %r" % (sorted(alleles), g3.as_vector()))
     if hash(g) != hash(g2) or hash(g) != hash(exp):
         raise Viol("hash(Genotype(%r)) inconsistent with its index" % (sh,))
+    # restore into a *used* object (its index, hash and state have been queried while it held another genotype)
+    other = [(a + 1) % 4 for a in alleles][: max(1, len(alleles) - (1 if rng.random() < 0.3 else 0))] or [1, 0]
+    g4 = Genotype(other)
+    g4.get_index(), hash(g4), g4.__getstate__(), str(g4)
+    g4.__setstate__(st)
+    if (not (g4 == g) or g4.get_index() != exp or hash(g4) != hash(g) or tuple(g4.__getstate__()) != tuple(st)
+            or sorted(g4.as_vector()) != sorted(alleles) or g4.get_ploidy() != len(alleles)):
+        raise Viol("restoring the state of %r into an object that held %r and had been queried: index %r (expected %d), state %r, vector %r" % (
+            sorted(alleles), other, g4.get_index(), exp, g4.__getstate__(), g4.as_vector()))
+    g5 = Genotype.__new__(Genotype, [])
+    g5.__setstate__(g4.__getstate__())
+    if not (g5 == g) or sorted(g5.as_vector()) != sorted(alleles):
+        raise Viol("second save/restore of %r gives %r" % (sorted(alleles), g5.as_vector()))
+    counters["gt_restore_into_used_object_checked"] = counters.get("gt_restore_into_used_object_checked", 0) + 1
     counters["gt_checked"] = counters.get("gt_checked", 0) + 1
     return g
 
